@@ -263,12 +263,19 @@ def main():
     if replay:
         log(f"OK property={pid} replay={replay} held")
     else:
-        ev = json.load(open(os.path.join(VERIF, "evidence", pid + ".json")))
+        ev = json.load(open(os.path.join(evidence_dir(), pid + ".json")))
         log(f"OK property={pid} tier={tier} seed={seed} evaluations={ev['coverage']['evaluations']} "
             f"distinct_nontrivial={ev['coverage']['distinct_nontrivial']} wall={wall:.1f}s")
     if "--keep" not in args:
         shutil.rmtree(rundir, ignore_errors=True)
     return 0
+
+
+def evidence_dir():
+    # sensitivity runs against a scratch copy (VERIF_REPO) never touch the evidence of the registered commands
+    if os.environ.get("VERIF_REPO"):
+        return os.path.join(WORK, "evidence-scratch")
+    return os.path.join(VERIF, "evidence")
 
 
 def crash_in_repo_code(txt):
@@ -378,8 +385,9 @@ def write_evidence(pid, spec, tier, seed, recs, wall, violations=None, known=Non
         "assumptions": spec.get("assumptions", []), "wall_s": round(wall, 2),
         "violations": len(violations or []),
     }
-    os.makedirs(os.path.join(VERIF, "evidence"), exist_ok=True)
-    with open(os.path.join(VERIF, "evidence", pid + ".json"), "w") as f:
+    evdir = evidence_dir()
+    os.makedirs(evdir, exist_ok=True)
+    with open(os.path.join(evdir, pid + ".json"), "w") as f:
         json.dump(ev, f, indent=1, default=str)
         f.write("\n")
 
